@@ -11,7 +11,54 @@ SUB = 'acts.core.subflow'
 class SubFamily:
     name = 'sub'
 
+    def gen_orphan(self, rng, idx, opts):
+        """the client sends the calling act back to an earlier step while the child is running; the child, which nobody
+        waits for any more, ends afterwards: its return must not close the calling act a second time"""
+        ending = rng.choice(['next', 'next', 'error', 'abort', 'skip'])
+        tag = rng.randint(1000, 9999)
+        m0 = {'id': 'm0', 'inputs': {'x': 0, 'y': 0}, 'outputs': {'y': None}, 'steps': [
+            {'id': 'spre', 'acts': [{'id': 'pre', 'uses': IRQ, 'key': 'pre'}]},
+            {'id': 's0', 'acts': [{'id': 'call0', 'uses': SUB, 'params': {'to': 'm1', 'options': {'pid': 'p1', 'x': tag, 'extra': 'e0'}}}, {'id': 'after0', 'uses': MSG, 'key': 'after0'}]}]}
+        m1 = {'id': 'm1', 'inputs': {'x': 0, 'y': 0}, 'outputs': {'y': None, 'x': None}, 'steps': [{'id': 's1', 'acts': [{'id': 'leaf', 'uses': IRQ, 'key': 'leaf'}]}]}
+        opts_end = {'next': {'y': tag + 500}, 'error': {'ecode': 'e7', 'message': 'child failed'}, 'abort': {}, 'skip': {}}[ending]
+        rules = [{'match': {'key': 'pre'}, 'action': 'next', 'times': 1}, {'match': {'key': 'leaf'}, 'action': 'none', 'times': 100}]
+        rt = rng.choice([{'flavor': 'current'}, {'flavor': 'current', 'chaos': {'max_yields': 4, 'seed': rng.randrange(1, 1 << 40)}}, {'flavor': 'multi', 'workers': 2, 'chaos': {'max_yields': 3, 'seed': rng.randrange(1, 1 << 40)}}])
+        snap = opts.get('snap', 'live')
+        ops = [{'op': 'start', 'mid': 'm0', 'vars': {'pid': 'p0'}}, {'op': 'run', 'snap': snap},
+               {'op': 'act', 'target': {'pid': 'p0', 'nid': 'call0', 'occ': 0}, 'action': 'back', 'options': {'to': 'spre'}}, {'op': 'quiesce'}, {'op': 'snapshot', 'level': snap}]
+        if rng.random() < 0.3:
+            ops += [{'op': 'evict'}]
+        ops += [{'op': 'act', 'target': {'pid': 'p1', 'key': 'leaf', 'state': 'interrupted'}, 'action': ending, 'options': opts_end}, {'op': 'quiesce'}, {'op': 'snapshot', 'level': snap}]
+        sc = {'id': '', 'family': 'sub', 'sched': rt['flavor'] + '-orphan', 'seed': rng.randrange(1 << 30), 'runtime': rt, 'engine': {'store': opts.get('store', 'mem'), 'keep_processes': True}, 'models': [json.dumps(m0), json.dumps(m1)],
+              'responder': {'mode': 'quiescent', 'order': 'fifo', 'rules': rules}, 'ops': ops}
+        if opts.get('store') == 'sqlite':
+            sc['watchdog_ms'] = 60000
+        return {'scenarios': [sc], 'meta': {'orphan': True, 'ending': ending, 'tag': tag, 'depth': 1, 'missing': False}, 'digest': digest(['orphan', ending, rt, ops]), 'nontrivial': True}
+
+    def judge_orphan(self, c, obs):
+        out = []
+        h, sc = c['hist'][0], c['scenarios'][0]
+        sid = sc['id']
+        acts_ = [o for o in h.ops if o['op'] == 'act']
+        obs['c15.runs:orphaned-child'] += 1
+        if len(acts_) < 2 or not acts_[0]['res'].get('ok'):
+            obs['c15.orphan:back-refused'] += 1
+            return out
+        calls = [e for e in h.creates if e['pid'] == 'p0' and e['nid'] == 'call0']
+        if not calls:
+            return out
+        k = ('p0', calls[0]['tid'])
+        recs = [e for e in h.states if (e['pid'], e['tid']) == k and e['via'] == 'set']
+        terms = [e['new'] for e in recs if e['new'] in TERM and e['old'] != e['new']]
+        cterm = [e for e in h.cbs if e['pid'] == 'p1' and e['what'] != 'start']
+        obs[f"c15.orphan:child-ended-{cterm[0]['state'] if cterm else 'not'}-after-the-call-was-sent-back"] += 1
+        if terms != ['backed']:
+            out.append(V('C15', 'call-closed-count', f"{len(terms)}:{'+'.join(terms) or 'none'}:after-client-back", f"the calling act was sent back by the client while its child ran; the child ended later and the act went {terms} (closed exactly once: backed)", scenario=sid))
+        return out
+
     def gen(self, rng, idx, opts):
+        if rng.random() < opts.get('orphan', 0.1):
+            return self.gen_orphan(rng, idx, opts)
         depth = rng.randint(1, 3)             # number of calls in the chain
         missing = rng.random() < 0.12
         ending = rng.choice(['next', 'next', 'error', 'abort', 'skip'])
@@ -71,6 +118,8 @@ class SubFamily:
     def judge(self, c, opts, obs):
         out = []
         h, sc, m = c['hist'][0], c['scenarios'][0], c['meta']
+        if m.get('orphan'):
+            return self.judge_orphan(c, obs)
         sid = sc['id']
         depth, tag = m['depth'], m['tag']
         obs[f"c15.runs:depth={depth}:{'missing-model' if m['missing'] else m['ending']}"] += 1
